@@ -172,6 +172,28 @@ def handle (j : Json) : Json :=
            else Json.mkObj [("agree", Json.bool false), ("model_sql", Json.str mine), ("impl_sql", Json.str theirs),
                             ("model_flags", toJson (flags d')), ("impl_flags", toJson (flags pd))])
     | .error e => Json.mkObj [("bad", Json.str e)]
+  | .ok "sstep" =>
+    -- set-operation builder calls (see `bstep`); `from_query` + `name` + `other`: the constructor on a QueryBuilder
+    let rtext (d : Doc) : String := match firstErr d with
+      | some e => "!exc:" ++ strOf e
+      | none => strOf (flatten d)
+    let c : Ctx := {}
+    let start : D SetOp :=
+      if (fld j "from_query").isNull then dSetOp (fld j "st")
+      else do pure (B.mkSetOp { r := B.QR.ofQ (← dQuery (fld j "from_query")) } (← fStr j "name") (← dQuery (fld j "other")))
+    match (do pure ((← start), (← (← fArr j "calls").mapM dSCall), (← jOpt dSetOp (fld j "post"))) : D (SetOp × List B.SCall × Option SetOp)) with
+    | .ok (st, calls, post) =>
+      (match B.runS st calls with
+       | .error e => Json.mkObj [("exc", Json.str (strOf e))]
+       | .ok s' =>
+         let mine := rtext (renderSetOp c s')
+         match post with
+         | none => Json.mkObj [("sql", Json.str mine)]
+         | some ps =>
+           let theirs := rtext (renderSetOp c ps)
+           if mine == theirs then Json.mkObj [("agree", Json.bool true)]
+           else Json.mkObj [("agree", Json.bool false), ("model_sql", Json.str mine), ("impl_sql", Json.str theirs)])
+    | .error e => Json.mkObj [("bad", Json.str e)]
   | .ok "tbleq" =>
     match (do pure ((← dTbl (fld j "a")), (← dTbl (fld j "b"))) : D (Tbl × Tbl)) with
     | .ok (a, b) => Json.mkObj [("eq", Json.bool (a.beq b)), ("hash_eq", Json.bool (a.hashKey == b.hashKey)),
